@@ -121,7 +121,7 @@ Definition mk_compose_enum_vector (p : vparam) (tbl : list Z) (w : Z) (items : l
 
 (* ---- OpaqueEnumParsable (base.py:1002-1046): a 1-byte-length-prefixed string that must be the code of a member.
    Vector._parse: prefix, item_num = int(len / item_size) one-byte items, cls(items) (bounds), then
-   six.ensure_text(bytes, 'utf-8') - a UnicodeDecodeError is NOT caught - and an exact comparison with each code. *)
+   six.ensure_text(bytes, 'utf-8') (UnicodeDecodeError -> InvalidValue) and an exact comparison with each code. *)
 From CP Require Import Core.Utf8.
 
 Fixpoint bytes_eqb (a b : bytes) : bool :=
@@ -143,7 +143,7 @@ Definition parse_opaque_enum (p : vparam) (tbl : list bytes) (buf : bytes) : res
   else
     let code := slice buf n0 (n0 + len) in
     let* _ := check_bounds p len in
-    if negb (utf8_valid code) then Err (Leak UnicodeError)
+    if negb (utf8_valid code) then Err InvalidValue     (* "fix: reject an opaque enum value that is not valid in its encoding" *)
     else match find_bytes tbl code 0 with
          | Some i => Ok (i, n0 + len)
          | None => Err InvalidValue
